@@ -70,8 +70,10 @@ class StandardRequestHandler(ControlRequestHandler):
 
         # ...but the block handler does not. In this case, first we split the descriptors into two
         # collections: fixed descriptors (for the ROM) and runtime descriptors.
-        fixed_descriptors       = DeviceDescriptorCollection()
-        runtime_descriptors     = DeviceDescriptorCollection()
+        # (Iterating over ``self.descriptors`` below adds the automatic language descriptor to it, if needed;
+        # the two sub-collections must not each grow their own copy, or both handlers would answer for it.)
+        fixed_descriptors       = DeviceDescriptorCollection(automatic_language_descriptor=False)
+        runtime_descriptors     = DeviceDescriptorCollection(automatic_language_descriptor=False)
         has_runtime_descriptors = False
         for type_number, index, descriptor in self.descriptors:
             if isinstance(descriptor, bytes):
